@@ -42,6 +42,48 @@ Theorem C04_deadline_parent : forall F c clk i j p, parent_bound c = Some p ->
 Proof. exact deadline_parent. Qed.
 Print Assumptions C04_deadline_parent.
 
+(* END TO END.  The contexts of the model are exactly the chains of derivations that the router
+   handler factories and defaultFactory (New / newMulti / newStack) wire up - router handler,
+   merge, part, concurrent stage, attempt, each present or not - on top of the context handed in
+   (under gin: on top of a context without deadline), and their depth is the number of stages *)
+Theorem C04_factory_nesting : forall F c clk i j,
+  ctx_call F c clk i j = build (base_ctx c) (stages F c clk i j) /\
+  List.length (ctx_call F c clk i j) = (List.length (base_ctx c) + depth c i)%nat.
+Proof. intros. split; [apply ctx_call_build|apply nesting_depth]. Qed.
+Print Assumptions C04_factory_nesting.
+
+(* ... and for every nesting the factory can build the deadline of a backend call is EXACTLY the
+   minimum of the deadlines of the frames above it: the context handed in (not under gin), the
+   router's arrival + T, the merge's start + 85 %, the concurrent stage's start + 75 %; it has no
+   deadline iff none of these frames exists *)
+Theorem C04_leaf_deadline_is_min : forall F c clk i j,
+  deadline (ctx_call F c clk i j) = lmin (frame_deadlines F c clk i).
+Proof. exact leaf_deadline_is_min. Qed.
+Print Assumptions C04_leaf_deadline_is_min.
+
+(* the same for ANY chain of WithTimeout / WithCancel derivations, of any length and order (also
+   nestings no factory builds today): the deadline is the running minimum along the chain *)
+Theorem C04_any_nesting_deadline : forall st base,
+  deadline (build base st) = min_dl (deadline base) st.
+Proof. exact build_deadline. Qed.
+Print Assumptions C04_any_nesting_deadline.
+
+(* ... and calling the cancel function of the outermost derivation ends every derived context
+   of the chain, intermediate frames and leaf alike, whatever is nested inside it *)
+Theorem C04_any_nesting_cancel : forall base s st cs now,
+  In (stage_tok s) cs -> chain_done cs now base (s :: st) = true.
+Proof. exact outermost_cancel_ends_chain. Qed.
+Print Assumptions C04_any_nesting_cancel.
+
+(* once the pipeline has returned, on whichever return paths, not only the context a backend
+   was called with but every context derived on the way to it (the WithTimeout frames of the
+   router handler, the merge and the concurrent stage included) is done *)
+Theorem C04_chain_cancelled_after_return : forall F c clk p called now i j,
+  derived c i = true -> In i called ->
+  chain_done (cancelled_at_return c p called) now (base_ctx c) (stages F c clk i j) = true.
+Proof. exact chain_done_after_return. Qed.
+Print Assumptions C04_chain_cancelled_after_return.
+
 (* once the pipeline has returned - on whichever return paths - every context it derived for a
    backend call is done, at any time, ... *)
 Theorem C04_cancelled_after_return : forall F c clk p called now i j,
@@ -211,10 +253,10 @@ Proof. vm_compute. auto. Qed.
    report a deadline beyond arrival + endpoint timeout, as when their context is derived from
    context.Background()) *)
 Definition ex_obs (dl1 : Z) : obs :=
-  {| o_calls := [ {| k_be := 0; k_inv := 10; k_dl := Some 852; k_done_after := true |};
-                  {| k_be := 1; k_inv := 11; k_dl := Some dl1; k_done_after := true |};
-                  {| k_be := 1; k_inv := 12; k_dl := Some dl1; k_done_after := true |};
-                  {| k_be := 2; k_inv := 10; k_dl := Some 852; k_done_after := true |} ];
+  {| o_calls := [ {| k_be := 0; k_inv := 10; k_dl := Some 852; k_done_after := true; k_depth := None; k_chain_done := true |};
+                  {| k_be := 1; k_inv := 11; k_dl := Some dl1; k_done_after := true; k_depth := None; k_chain_done := true |};
+                  {| k_be := 1; k_inv := 12; k_dl := Some dl1; k_done_after := true; k_depth := None; k_chain_done := true |};
+                  {| k_be := 2; k_inv := 10; k_dl := Some 852; k_done_after := true; k_depth := None; k_chain_done := true |} ];
      o_returned := true; o_ret := 860; o_keys := [0%nat]; o_leaked := 0; o_released := false; o_tainted := false |}.
 Example C04_ex_oracle :
   spec_b lura_factors ex_cfg 100 (ex_obs 753) = true /\ spec_b lura_factors ex_cfg 100 (ex_obs 1100) = false.
@@ -244,3 +286,20 @@ Example C04_ex_shadow :
       [None; Some 3000000000; Some 50000000]
   = [Some 340000000; Some 340000000; Some 340000000].
 Proof. vm_compute. reflexivity. Qed.
+
+(* the frames of the example: parent 5000, router 1+1000, merge 2+850, stage 3+750; depth 5 for the
+   concurrent backend (router, merge, part, stage, attempt), 3 for the others *)
+Example C04_ex_frames :
+  frame_deadlines lura_factors ex_cfg ex_clk 1 = [5000; 1001; 852; 753] /\
+  lmin (frame_deadlines lura_factors ex_cfg ex_clk 1) = Some 753 /\
+  map (depth ex_cfg) [0; 1; 2]%nat = [3; 5; 3]%nat /\
+  List.length (ctx_call lura_factors ex_cfg ex_clk 1 0) = 6%nat.
+Proof. vm_compute. auto. Qed.
+
+(* an intermediate frame that is NOT cancelled is seen: with nothing cancelled the chain of the
+   example is not done before its deadlines, with the router's cancel it is *)
+Example C04_ex_chain :
+  chain_done [] 0 (base_ctx ex_cfg) (stages lura_factors ex_cfg ex_clk 1 0) = false /\
+  chain_done [tok_att 1 0] 0 (base_ctx ex_cfg) (stages lura_factors ex_cfg ex_clk 1 0) = false /\
+  chain_done [tok_router] 0 (base_ctx ex_cfg) (stages lura_factors ex_cfg ex_clk 1 0) = true.
+Proof. vm_compute. auto. Qed.
